@@ -415,6 +415,9 @@ impl<
     pub fn get_map<T>(&self, key: &K, f: impl Fn(&V) -> T) -> Option<T> {
         let entry = self.inner.storage.read_sync(key, |_, v| f(v));
 
+        #[cfg(feature = "verif")]
+        qbice_verif_rt::point("tiny_lfu_after_read");
+
         self.try_maintenance(Some(PolicyMessage::ReadHit(key.clone())));
 
         entry
@@ -428,6 +431,9 @@ impl<
         key: K,
         f: impl FnOnce(Entry<'_, '_, K, V>) -> T,
     ) -> T {
+        #[cfg(feature = "verif")]
+        qbice_verif_rt::point("tiny_lfu_before_entry");
+
         let t = match self.inner.storage.entry_sync(key) {
             scc::hash_map::Entry::Vacant(entry) => {
                 f(Entry::Vacant(VacantEntry {
